@@ -120,7 +120,8 @@ def _parse_xml_string(xml_string, parser, charset=None):
         except ValueError as e:
             logger.debug('ValueError: Deserializing from unicode strings with '
                          'encoding declaration is not supported by lxml.')
-            root, xmlids = etree.XMLID(string.encode(charset), parser)
+            root, xmlids = etree.XMLID(string.encode(charset or 'utf8'),
+                                                                         parser)
 
     except XMLSyntaxError as e:
         logger_invalid.error("%r in string %r", e, string)
@@ -214,7 +215,8 @@ class Soap11(XmlDocument):
                         "header properly set.")
 
             content_type = cgi.parse_header(content_type)
-            ctx.in_string = collapse_swa(ctx, content_type, self.ns_soap_env)
+            ctx.in_string = collapse_swa(ctx, content_type, self.ns_soap_env,
+                                        parser=XMLParser(**self.parser_kwargs))
 
         ctx.in_document = _parse_xml_string(ctx.in_string,
                                             XMLParser(**self.parser_kwargs),
